@@ -1,6 +1,7 @@
 """C02 - generated Python models accept exactly what the source schema accepts."""
 import ast
 import copy
+import hashlib
 import json
 import os
 import subprocess
@@ -60,8 +61,8 @@ ANCHORS = [
 
 def plan(tier):
     if tier == "quick":
-        return {"shards": 16, "docs": 40, "values": 8, "cli_every": 20, "timeout": 300}
-    return {"shards": 16, "docs": 1500, "values": 10, "cli_every": 60, "timeout": 3000}
+        return {"shards": 16, "docs": 40, "values": 8, "cli_every": 20, "timeout": 300, "mirror": True}
+    return {"shards": 16, "docs": 1500, "values": 10, "cli_every": 60, "timeout": 3000, "mirror": True}
 
 
 def f22_titles_in(resolved):
@@ -190,9 +191,25 @@ def variant_of(doc, tag):
     return {"files": files, "entry": entry, "all_titled": doc["all_titled"]}
 
 
-def one_doc(ctx, sut, fpm, idx, given=None):
-    rng = ctx.rng
-    serial = f"{ctx.shard}_{idx}_{os.getpid()}"
+def make_doc(ctx, idx):
+    rng = ctx.gen_rng
+    serial = f"{ctx.stream}_{idx}"
+    from vlib import gen_schemas as gs  # pylint: disable=import-outside-toplevel
+
+    names = gs.PLAIN_NAMES + gs.RENAMING_NAMES
+    if idx % 4:
+        names = [n for n in names if n not in ("é", "1st")]
+    gen = gen_docs.DocGen(rng, serial, names=names, hostile_descriptions=idx % 3 == 0,
+                          f22_titles=0.3 if idx % 10 == 9 else 0.0, untitled=0.0 if idx % 2 else 0.5)
+    doc = gen.doc()
+    doc["values_seed"] = rng.getrandbits(32)
+    return doc
+
+
+def one_doc(ctx, sut, fpm, idx, given=None, generated=False):
+    rng = ctx.gen_rng
+    # (file names feed the automatic titles, so they are a function of the stream and the index only)
+    serial = f"{ctx.stream}_{idx}"
     f22_mode = idx % 10 == 9
     hostile = idx % 3 == 0
     from vlib import gen_schemas as gs  # pylint: disable=import-outside-toplevel
@@ -204,8 +221,11 @@ def one_doc(ctx, sut, fpm, idx, given=None):
     gen = gen_docs.DocGen(rng, serial, names=names, hostile_descriptions=hostile,
                           f22_titles=0.3 if f22_mode else 0.0, untitled=0.0 if idx % 2 else 0.5)
     doc = given or gen.doc()
-    if given is not None:
+    if given is not None and not generated:
         ctx.count("doc.sibling_variant_same_process")
+    import random as _random  # pylint: disable=import-outside-toplevel
+
+    rng = _random.Random(f"values/{doc.get('values_seed', idx)}")
     try:
         resolved = gen_docs.resolve(doc)
     except Exception:  # pylint: disable=broad-except
@@ -333,7 +353,9 @@ def one_doc(ctx, sut, fpm, idx, given=None):
     else:
         root_generated = None
     values = gv.batch_for_schema(rng, resolved, resolved, count=ctx.params["values"])
+    observed = [hashlib.sha256(text.encode("utf8", "surrogatepass")).hexdigest()]
     for value in values:
+        observed.append(sut.call(root_parsed, copy.deepcopy(value))[0])
         ctx.count("verdicts.compared")
         out_p = sut.call(root_parsed, copy.deepcopy(value))[0]
         ctx.count("verdicts.accept" if out_p == "ok" else "verdicts.reject")
@@ -352,6 +374,7 @@ def one_doc(ctx, sut, fpm, idx, given=None):
                             f"root class -> {out_p}, source schema (Draft-6 model) -> {sorted(allowed)}",
                             finding=finding)
                 return
+    ctx.digest(f"{idx}{'v' if given is not None else ''}", observed)
     ctx.sample({"files": doc["files"], "module_head": text[:400]}, every=15)
     return doc
 
@@ -388,9 +411,14 @@ def run_shard(ctx):
     from vlib import fingerprint as fpm  # pylint: disable=import-outside-toplevel
     from vlib import sut  # pylint: disable=import-outside-toplevel
 
+    # documents are generated up front (generation never depends on what the library did), then handled
+    # in stream order - reversed in the mirror shard
+    cases = []
     for idx in range(ctx.params["docs"]):
-        doc = one_doc(ctx, sut, fpm, idx)
-        if doc is not None and idx % 2 == 1:
+        cases.append(make_doc(ctx, idx))
+    for idx, doc in ctx.ordered(cases):
+        done = one_doc(ctx, sut, fpm, idx, given=doc, generated=True)
+        if done is not None and idx % 2 == 1:
             sibling = variant_of(doc, "v")
             if sibling is not None:
                 one_doc(ctx, sut, fpm, idx, given=sibling)
